@@ -17,6 +17,20 @@ CLAIMED = {
    technique="contract-based deductive verification: self-generated VCs from the jaxpr of the real functions over "
              "uninterpreted smooth functions, discharged by ring normalisation + z3 (cvc5 fallback)",
    design_ref="DESIGN.md §5 C01", note=B_NOTE),
+ "C02": dict(
+   text="For each built-in equation the obligation 'evaluate(real code) == documented differential expression' is "
+        "discharged for all points, all equation parameters, all Tmax and all C^4 networks (PINN branches; modular "
+        "obligations use the C01 operator contracts, closure obligations inline them).",
+   technique="contract-based deductive verification: VCs from the jaxpr of the real evaluate/equation methods over "
+             "uninterpreted networks, ring normalisation + z3",
+   design_ref="DESIGN.md §5 C02", note=B_NOTE + " GLV is read in its log form (parameter roles as in DESIGN §5 C02)."),
+ "C03": dict(
+   text="For every subset of configured terms of LossODE / LossPDEStatio / LossPDENonStatio: total == sum of terms, "
+        "unconfigured terms == 0, dynamic term == (1/B) sum_i sum_c w_c R_c(point_i)^2 with R an uninterpreted user "
+        "residual; plus the three corollaries as relational obligations on the real code.",
+   technique="contract-based deductive verification: VCs from the jaxpr of the real evaluate methods, uninterpreted "
+             "residual map and network, ring normalisation + z3",
+   design_ref="DESIGN.md §5 C03", note=B_NOTE + " Batch size and component count are enumerated (1..3)."),
 }
 PENDING_REASON = "check not built yet (framework under construction); will be claimed once its contracts verify"
 NA = {}
